@@ -122,6 +122,9 @@ def run(ctx, model_ok):
         else:
             h2, m2 = rng.randint(0, 23), rng.randint(0, 59)
             text = f"{ttxt} to {h2}:{m2:02d}"
+            if rng.random() < 0.4:
+                # the first time comes from a variable bound on an earlier line (same default zone)
+                text = f"a = {ttxt}\na to {h2}:{m2:02d}"
             inst, zn, zo = abs((h2 * 3600 + m2 * 60) - wall), None, None
         cases.append({"cfg": cfg, "text": text, "kind": kind, "inst": inst, "zn": zn, "zo": zo, "nontriv": (kind == "convert" and o1 != o2) or kind in ("add", "sub", "zone")})
     ops = []
@@ -137,7 +140,7 @@ def run(ctx, model_ok):
         r = res[i]
         i += 1 + (1 if c["cfg"] else 0)
         case_ops = c["cfg"] + [{"op": "exec", "lang": "en", "text": c["text"]}] + ([{"op": "tz", "v": "UTC"}] if c["cfg"] else [])
-        l = r.get("lines", [None])[0] if "lines" in r else None
+        l = r.get("lines", [None])[-1] if "lines" in r and r["lines"] else None
         v = l.get("ok") if l and "ok" in l else None
         ctx.seen((C.json.dumps(c["cfg"]), c["text"]), c["nontriv"])
         ctx.count("kind:" + c["kind"])
